@@ -109,7 +109,7 @@ def judge_mode(cases, results, forms, byname, mode, stats, viol, samples):
             if "(bad)" not in t2 and t2 != "":
                 dec = "agree" if x86tools.canon(t1) == x86tools.canon(t2) else "disagree"
                 if dec == "disagree":
-                    viol.append(("dec-disagree:%s" % c["name"],
+                    viol.append((gap_class(c, byname, mode) or "dec-disagree:%s" % c["name"],
                                  "objdump reads AsmJit's bytes %s as `%s` but the same instruction assembled by llvm-mc from `%s` (%s) reads `%s`; case: %s"
                                  % (raw.hex(), t1, texts[i], lb[i].hex(), t2, line), line))
         stats["dec_" + dec] += 1
